@@ -1,5 +1,6 @@
 import Zlink.Model.Wire
 import Zlink.Spec.Idl
+import Zlink.Model.IdlExchange
 /-! Driver glue for scenarios `idl` (C13) and `idlrt` (C14): compact tree format reader/printer. -/
 namespace DriverIdl
 open Wire Idl
@@ -205,8 +206,28 @@ def handleRt (ts : List String) : String :=
       "M " ++ m ++ " | H " ++ (if h then "1" else "0")
   | _ => "bad-line"
 
+/-- `idlx T <dump> => W <frame> X ok <dump>|error|panic|decode-error|method-error|send-error` -/
+def handleX (ts : List String) : String :=
+  let (inp, obs) := splitAt "=>" ts
+  match inp with
+  | [_, "T", d] =>
+    match pIface d with
+    | none => "bad-tree"
+    | some a =>
+      let frame := IdlExchange.encodeReply a
+      let x := match IdlExchange.decodeReply frame with
+        | some txt => obsOf (parseInterface txt)
+        | none => "decode-error"
+      let m := "W " ++ encBytes (frame ++ [0]) ++ " X " ++ x
+      -- oracle on the implementation's observation: what the client parsed is what the service described
+      let (_, o1) := splitAt "X" obs
+      let h := o1 == ["ok", d] && SpecIdl.ifaceOK a
+      "M " ++ m ++ " | H " ++ (if h then "1" else "0")
+  | _ => "bad-line"
+
 def handle (ts : List String) : String :=
   match ts.head? with
+  | some "idlx" => handleX ts
   | some "idl" => handleIdl ts
   | some "idlrt" => handleRt ts
   | _ => "skip"
